@@ -1,30 +1,30 @@
 (* C16 — property theorems only.  Each is closed by [exact]; see C16/*.v. *)
-From Coq Require Import List Arith Bool PeanoNat NArith.
-From VV Require Import Lib.Base C16.Model C16.Inv C16.History C16.Toposort C16.Sweep.
+From Coq Require Import List Arith Bool PeanoNat NArith Relations.
+From VV Require Import Lib.Base C16.Model C16.Inv C16.GraftSpec C16.ProofsM C16.ProofsQ C16.History
+     C16.History2 C16.Trans C16.Toposort C16.Sweep.
 Import ListNotations.
 
-(* one editing operation (new graph, node/edge insertion and removal, copy) on a world of
-   graph objects that satisfy the representation invariant and stand for the plain graphs
-   [aw]: same outcome (result or the same exception class), invariant kept, and the new
-   world stands for the result of the set operation *)
+(* one operation of the FULL editing alphabet (new graph, node/edge insertion and removal,
+   merge +=, +, copy, invert, graft of a nested graph object) on a world of graph objects that
+   satisfy the representation invariant and stand for the plain graphs [aw]: same outcome
+   (result or the same exception class), invariant kept, and the new world stands for the
+   result of the plain set operation *)
 Theorem C16_step_refines : forall w aw e,
   Forall2 R w aw ->
-  match wstep w (to_wop e), astep aw e with
+  match wstep w (f_wop e), fstep aw e with
   | Ok w', Ok aw' => Forall2 R w' aw'
   | Raise c, Raise c' => c = c'
   | _, _ => False
   end.
-Proof. exact step_refines. Qed.
+Proof. exact step_refines_full. Qed.
 Print Assumptions C16_step_refines.
 
 (* after ANY finite history of these operations from the empty world every graph object
    satisfies the invariant and reports exactly the nodes, direct dependencies and dependees
-   of the plain node list / edge list.  (partial: merge, +, invert and graft are transcribed
-   in the model and checked on every run against the implementation and the reference, but
-   their refinement is not proved) *)
-Theorem C16_edit_history_refines_partial : forall (h : list eop) r g,
-  nth_error (wrun [] h) r = Some g ->
-  exists a, nth_error (arun [] h) r = Some a /\ g_ok g /\
+   of the plain node list / edge list obtained by running the history on plain graphs *)
+Theorem C16_edit_history_refines : forall (h : list fop) r g,
+  nth_error (wrunf [] h) r = Some g ->
+  exists a, nth_error (arunf [] h) r = Some a /\ g_ok g /\
     (forall k, In k (seq (nodes g)) <-> In k (fst a)) /\
     (forall n, match dependencies g n false with
                | Ok l => In n (fst a) /\ forall b, In b l <-> In (n, b) (snd a)
@@ -34,17 +34,70 @@ Theorem C16_edit_history_refines_partial : forall (h : list eop) r g,
                | Ok l => In n (fst a) /\ forall b, In b l <-> In (b, n) (snd a)
                | Raise c => c = EValue /\ ~ In n (fst a)
                end).
-Proof. exact edit_history_refines_partial. Qed.
-Print Assumptions C16_edit_history_refines_partial.
+Proof. exact edit_history_refines. Qed.
+Print Assumptions C16_edit_history_refines.
 
-(* an edit of one graph object leaves every other object (copies included) untouched *)
-Theorem C16_copy_independent_partial : forall (w : world) e w' r q g,
-  wstep w (to_wop e) = Ok w' ->
-  (match e with ENew | ECopy _ => False
-              | EAddNode r' _ | ERemoveNode r' _ | EAddDep r' _ _ | ERemoveDep r' _ _ => r' = r end) ->
-  q <> r -> nth_error w q = Some g -> nth_error w' q = Some g.
-Proof. exact copy_independent_partial. Qed.
-Print Assumptions C16_copy_independent_partial.
+(* the mathematical meaning of graft(s) when the node s is the graph [sub] (GraftSpec.v),
+   including the empty sub-graph rule and the re-adding of a self-dependent node *)
+Theorem C16_graft_refines : forall g s sub, g_ok g -> g_ok sub ->
+  match graft g s sub with
+  | Ok g' => cnode g s /\ g_ok g' /\
+             (forall k, cnode g' k <-> graft_node g s sub k) /\
+             (forall x y, cedge g' x y <-> graft_edge g s sub x y)
+  | Raise c => c = EValue /\ ~ cnode g s
+  end.
+Proof. exact graft_ok. Qed.
+Print Assumptions C16_graft_refines.
+
+(* frame: an operation changes at most its target object; +, copy, invert only create one *)
+Theorem C16_frame : forall (w : world) e w' q,
+  wstep w (f_wop e) = Ok w' -> q < length w -> target e <> Some q ->
+  nth_error w' q = nth_error w q.
+Proof. exact frame_full. Qed.
+Print Assumptions C16_frame.
+
+(* depends(), <= and == report the plain graph *)
+Theorem C16_depends_reports : forall g a b, g_ok g ->
+  match depends g a b false with
+  | Ok r => cnode g a /\ cnode g b /\ (r = true <-> cedge g a b)
+  | Raise c => c = EValue /\ (~ cnode g a \/ ~ cnode g b)
+  end.
+Proof. exact depends_ok. Qed.
+Print Assumptions C16_depends_reports.
+
+Theorem C16_le_reports : forall g h, g_ok g -> g_ok h ->
+  exists r, le g h = Ok r /\
+    (r = true <-> (forall k, cnode g k -> cnode h k) /\ (forall x y, cedge g x y -> cedge h x y)).
+Proof. exact le_ok. Qed.
+Print Assumptions C16_le_reports.
+
+Theorem C16_eq_reports : forall g h, g_ok g -> g_ok h ->
+  exists r, isomorphic g h = Ok r /\
+    (r = true <-> (forall k, cnode g k <-> cnode h k) /\ (forall x y, cedge g x y <-> cedge h x y)).
+Proof. exact isomorphic_ok. Qed.
+Print Assumptions C16_eq_reports.
+
+(* transitive closure and reduction, all acyclic graphs (unbounded) *)
+Theorem C16_closure_correct : forall g, g_ok g -> acyclic g ->
+  exists g', transitive_closure g = Ok g' /\ g_ok g' /\
+    (forall k, cnode g' k <-> cnode g k) /\
+    (forall x y, cedge g' x y <-> clos_trans key (cedge g) x y).
+Proof. exact closure_correct. Qed.
+Print Assumptions C16_closure_correct.
+
+Theorem C16_reduction_correct : forall g, g_ok g -> acyclic g ->
+  exists g', transitive_reduction g = Ok g' /\ g_ok g' /\
+    (forall k, cnode g' k <-> cnode g k) /\
+    (forall x y, cedge g' x y <->
+       cedge g x y /\ ~ exists c, clos_trans key (cedge g) x c /\ clos_trans key (cedge g) c y) /\
+    (forall x y, clos_trans key (cedge g') x y <-> clos_trans key (cedge g) x y).
+Proof. exact reduction_correct. Qed.
+Print Assumptions C16_reduction_correct.
+
+Theorem C16_reduction_edge_needed : forall g g', g_ok g -> acyclic g -> transitive_reduction g = Ok g' ->
+  forall x y, cedge g' x y -> ~ clos_trans key (fun a b => cedge g' a b /\ ~ (a = x /\ b = y)) x y.
+Proof. exact reduction_edge_needed. Qed.
+Print Assumptions C16_reduction_edge_needed.
 
 (* topological sort, all graphs (unbounded): a result lists every node once, every node
    after all its dependencies, and only acyclic graphs have one *)
